@@ -500,6 +500,7 @@ Boolean MACRO_Processor(PInputTag PInp, as_dynstr_t* p_dest) {
 
     if ((PInp->LineZ == 1) && (!PInp->GlobalSymbols)) {
         PushLocHandle(GetLocHandle());
+        PInp->First = False;
     }
 
     /* signal the end of the macro */
@@ -769,9 +770,10 @@ static Boolean MACRO_GetPos(PInputTag PInp, char* dest, size_t DestSize) {
 }
 
 static void MACRO_Restorer(PInputTag PInp) {
-    /* discard the local symbol space */
+    /* discard the local symbol space, if the processor has opened one
+       (it does so before the first body line, i.e. not for an empty body) */
 
-    if (!PInp->GlobalSymbols) {
+    if (!PInp->GlobalSymbols && !PInp->First) {
         PopLocHandle();
     }
 
